@@ -200,6 +200,12 @@ where
     match pipes.shift(env, has_next) {
         Ok(()) => Continue(()),
         Err(errno) => {
+            // The pipeline is abandoned: do not leave the reader from the
+            // previous command open.
+            if let Some(fd) = pipes.read_previous.take() {
+                let _ = env.system.close(fd);
+            }
+
             // TODO print error location using yash_env::io::print_error
             let message = format!("cannot connect pipes in the pipeline: {errno}\n");
             env.system.print_error(&message).await;
